@@ -65,7 +65,7 @@ def summaryRow (removePen : Bool) (g : AvrGroup Float) : String :=
 
 /-- the rows of `get_summary_section` (after its header) -/
 def summaryRows (removePen : Bool) (order : List String) (gs : List (AvrGroup Float)) : String :=
-  String.join (order.flatMap fun rt => (gs.filter fun g => g.resType == rt).map (summaryRow removePen))
+  String.join ((Groups.summaryRows order (fun (g : AvrGroup Float) => g.resType) gs).map (summaryRow removePen))
 
 /-- `conformation.chains` of the first conformation: chain identifiers of its own records in order of first appearance -/
 def chainsOf (recs : List Pdb.AtomRec) : List String :=
